@@ -27,4 +27,68 @@ theorem gen_missing_conversions (x : α) (s : DMS α) (t : DDM α) :
     GenAng.gona (.gonA x) = .error .AttributeError ∧ GenAng.dms (.dmsA s) = .error .AttributeError ∧
     GenAng.ddm (.ddmA t) = .error .AttributeError := ⟨rfl, rfl, rfl, rfl, rfl⟩
 
+/-! ## module-level wiring functions regenerated from `angles.py` = the hand model's definitions
+
+19 of the 25 module-level conversions are compositions of other conversions, a `divmod` split or a constructor call; they are
+regenerated (`GenAng.leaf_*`) and equal the hand model's function of the same name for every argument. What remains
+hand-modelled only (digit-level string work / numpy): `dec2hp`, `_hp_fields`, `hp2dec`, `dec2hp_v`, `hp2dec_v`. -/
+
+theorem gen_leaf_dec2gon (x : α) : GenAng.leaf_dec2gon x = .ok (dec2gon x) := rfl
+theorem gen_leaf_gon2dec (x : α) : GenAng.leaf_gon2dec x = .ok (gon2dec x) := rfl
+theorem gen_leaf_dec2gona (x : α) : GenAng.leaf_dec2gona x = .ok (dec2gona x) := rfl
+theorem gen_leaf_gon2deca (x : α) : GenAng.leaf_gon2deca x = .ok (gon2deca x) := rfl
+theorem gen_leaf_gon2hp (x : α) : GenAng.leaf_gon2hp x = .ok (gon2hp x) := rfl
+theorem gen_leaf_gon2rad (x : α) : GenAng.leaf_gon2rad x = .ok (gon2rad x) := rfl
+theorem gen_leaf_gon2dms (x : α) : GenAng.leaf_gon2dms x = .ok (gon2dms x) := rfl
+theorem gen_leaf_gon2ddm (x : α) : GenAng.leaf_gon2ddm x = .ok (gon2ddm x) := rfl
+
+theorem gen_leaf_dec2hpa (x : α) : GenAng.leaf_dec2hpa x = dec2hpa x := by
+  unfold GenAng.leaf_dec2hpa dec2hpa
+  cases mkHP (dec2hp x) <;> rfl
+theorem gen_leaf_gon2hpa (x : α) : GenAng.leaf_gon2hpa x = gon2hpa x := by
+  unfold GenAng.leaf_gon2hpa gon2hpa
+  cases mkHP (gon2hp x) <;> rfl
+theorem gen_leaf_hp2deca (x : α) : GenAng.leaf_hp2deca x = hp2deca x := by
+  unfold GenAng.leaf_hp2deca hp2deca
+  cases hp2dec x <;> rfl
+theorem gen_leaf_hp2rad (x : α) : GenAng.leaf_hp2rad x = hp2rad x := by
+  unfold GenAng.leaf_hp2rad hp2rad
+  cases hp2dec x <;> rfl
+theorem gen_leaf_hp2gon (x : α) : GenAng.leaf_hp2gon x = hp2gon x := by
+  unfold GenAng.leaf_hp2gon hp2gon
+  cases hp2dec x <;> rfl
+theorem gen_leaf_hp2gona (x : α) : GenAng.leaf_hp2gona x = hp2gona x := by
+  unfold GenAng.leaf_hp2gona hp2gona
+  cases hp2gon x <;> rfl
+
+theorem gen_leaf_dec2dms (x : α) : GenAng.leaf_dec2dms x = .ok (dec2dms x) := by
+  unfold GenAng.leaf_dec2dms dec2dms
+  cases leb (ofNat 0) x <;> rfl
+theorem gen_leaf_dec2ddm (x : α) : GenAng.leaf_dec2ddm x = .ok (dec2ddm x) := by
+  unfold GenAng.leaf_dec2ddm dec2ddm
+  cases leb (ofNat 0) x <;> rfl
+theorem gen_leaf_hp2dms (x : α) : GenAng.leaf_hp2dms x = .ok (hp2dms x) := by
+  unfold GenAng.leaf_hp2dms hp2dms
+  cases leb (ofNat 0) x <;> rfl
+theorem gen_leaf_hp2ddm (x : α) : GenAng.leaf_hp2ddm x = .ok (hp2ddm x) := by
+  unfold GenAng.leaf_hp2ddm hp2ddm
+  cases leb (ofNat 0) x <;> rfl
+theorem gen_leaf_dd2sec (x : α) : GenAng.leaf_dd2sec x = .ok (dd2sec x) := by
+  unfold GenAng.leaf_dd2sec dd2sec
+  cases leb (ofNat 0) x <;> rfl
+
+/-- the bundle: every regenerated module-level wiring function is the model's -/
+theorem gen_leaf_functions (x : α) :
+    GenAng.leaf_dec2hpa x = dec2hpa x ∧ GenAng.leaf_dec2gon x = .ok (dec2gon x) ∧ GenAng.leaf_dec2gona x = .ok (dec2gona x) ∧
+    GenAng.leaf_dec2dms x = .ok (dec2dms x) ∧ GenAng.leaf_dec2ddm x = .ok (dec2ddm x) ∧ GenAng.leaf_hp2deca x = hp2deca x ∧
+    GenAng.leaf_hp2rad x = hp2rad x ∧ GenAng.leaf_hp2gon x = hp2gon x ∧ GenAng.leaf_hp2gona x = hp2gona x ∧
+    GenAng.leaf_hp2dms x = .ok (hp2dms x) ∧ GenAng.leaf_hp2ddm x = .ok (hp2ddm x) ∧ GenAng.leaf_gon2dec x = .ok (gon2dec x) ∧
+    GenAng.leaf_gon2deca x = .ok (gon2deca x) ∧ GenAng.leaf_gon2hp x = .ok (gon2hp x) ∧ GenAng.leaf_gon2hpa x = gon2hpa x ∧
+    GenAng.leaf_gon2rad x = .ok (gon2rad x) ∧ GenAng.leaf_gon2dms x = .ok (gon2dms x) ∧ GenAng.leaf_gon2ddm x = .ok (gon2ddm x) ∧
+    GenAng.leaf_dd2sec x = .ok (dd2sec x) :=
+  ⟨gen_leaf_dec2hpa x, gen_leaf_dec2gon x, gen_leaf_dec2gona x, gen_leaf_dec2dms x, gen_leaf_dec2ddm x, gen_leaf_hp2deca x,
+   gen_leaf_hp2rad x, gen_leaf_hp2gon x, gen_leaf_hp2gona x, gen_leaf_hp2dms x, gen_leaf_hp2ddm x, gen_leaf_gon2dec x,
+   gen_leaf_gon2deca x, gen_leaf_gon2hp x, gen_leaf_gon2hpa x, gen_leaf_gon2rad x, gen_leaf_gon2dms x, gen_leaf_gon2ddm x,
+   gen_leaf_dd2sec x⟩
+
 end GeodeVerif.C08
